@@ -307,11 +307,11 @@ type c12Req struct {
 	Body      string            `json:"body"`
 	Want      []int             `json:"want_status"`
 	WantCode  int               `json:"want_code,omitempty"`
-	JSONResp  bool              `json:"json_response,omitempty"` // the handler is configured with JSONResponse
-	Notif     bool              `json:"notification,omitempty"`  // stateless: the POST carries a notification, not a call
-	Prelude   bool              `json:"prelude,omitempty"`       // the same handler first serves a request that arrived on a non-loopback address (a server listening on 0.0.0.0)
+	JSONResp  bool              `json:"json_response,omitempty"`  // the handler is configured with JSONResponse
+	Notif     bool              `json:"notification,omitempty"`   // stateless: the POST carries a notification, not a call
+	Prelude   bool              `json:"prelude,omitempty"`        // the same handler first serves a request that arrived on a non-loopback address (a server listening on 0.0.0.0)
 	NoSID     bool              `json:"no_session_ids,omitempty"` // stateful endpoint whose server suppresses session ids (GetSessionID returns ""): every request is served by an ephemeral session
-	Wrapped   bool              `json:"wrapped,omitempty"`       // the violating message travels as the only element of a JSON array
+	Wrapped   bool              `json:"wrapped,omitempty"`        // the violating message travels as the only element of a JSON array
 }
 
 func b64h(s string) string { return "=?base64?" + base64.StdEncoding.EncodeToString([]byte(s)) + "?=" }
